@@ -212,6 +212,27 @@ def check(ld, parts, label, backend, reqs, hold, res, tmpdir):
              nontrivial)
     sig = {'backend': backend}
     pristine = copy.deepcopy(parts)
+    # a neighbour: another database object, alive at the same time, with the
+    # same dataset and alias names but other examples; its datasets are held
+    # while `db` is queried.  Neither may answer from the other's source.
+    nheld, nmerged = {}, None
+    if hold and merged != REJECT:
+        nparts = copy.deepcopy(parts)
+        for p_ in nparts:
+            for exs in p_['datasets'].values():
+                for k_ in list(exs):
+                    exs[k_] = {**exs[k_], 'neighbour': True}
+                    exs['nb_' + k_] = {'neighbour': 'extra'}
+        nmerged = model_merge(nparts)
+        try:
+            ndb = dbm.DictDatabase(*nparts)
+            for name in list(nmerged[0]) + list(nmerged[1]):
+                if model_get(nmerged, name) != REJECT:
+                    nheld[name] = ndb.get_dataset(name)
+        except BaseException as e:
+            res.violation('legal-description-refused', {**case, 'neighbour': True},
+                          exc_sig(e), sig={**sig, 'label': label, 'exc': type(e).__name__})
+            return
     try:
         if backend == 'dict':
             db = dbm.DictDatabase(*parts) if len(parts) != 2 else dbm.DictDatabase(list(parts))
@@ -310,6 +331,13 @@ def check(ld, parts, label, backend, reqs, hold, res, tmpdir):
             held.append(ds)
         del ds
         gc.collect()
+    # isolation between database objects
+    for name, nds in nheld.items():
+        res.count('neighbour_database_datasets_compared')
+        if list(nds) != model_get(nmerged, name):
+            res.violation('databases-share-datasets', {**case, 'name': name},
+                          {'neighbour_now_yields': list(nds)[:4]}, sig=sig)
+            break
     # isolation of the sources
     if norm(parts) != norm(pristine):
         res.violation('source-dict-changed', case,
@@ -355,6 +383,7 @@ def run_shard(spec, res):
 
 def finalize(res, tier):
     for k in ('datasets_compared', 'identity_checks', 'source_comparisons',
+              'neighbour_database_datasets_compared',
               'rejections_at_construction', 'rejections_at_request'):
         if res.counters.get(k, 0) == 0:
             res.inconclusive_because(f'monitor {k} never evaluated')
